@@ -104,6 +104,34 @@ def corr(ctx):
             record('try_remove_group', [attrib, kids, push], impl_try_remove(attrib, kids, push),
                    m.call('try_remove_group', [wire_map(attrib), [[t, wire_map(a)] for t, a in kids], push]), len(kids) >= 2 and 'opacity' in attrib)
         if len(stats['disagreements']) >= 10: break
+    # writing a cached shape back to its element and reading it again (to_element / from_element), one string field at a time
+    from picosvg.svg_types import SVGPath
+    import dataclasses
+    WB = {'fill': ['black', 'red', 'none'], 'stroke': ['none', 'red', 'black'], 'fill-rule': ['nonzero', 'evenodd'], 'clip-rule': ['nonzero', 'evenodd'],
+          'stroke-linecap': ['butt', 'round'], 'stroke-linejoin': ['miter', 'bevel']}
+    defaults = {f.name.replace('_', '-'): f.default for f in dataclasses.fields(SVGPath)}
+    for i in range(ctx.n(400, 6000)):
+        k = rng.choice(list(WB)); v = rng.choice(WB[k])
+        inh = {kk: rng.choice(WB[kk]) for kk in WB if rng.random() < 0.5}
+        if i % 2 == 0:
+            try: impl = psvg.to_element(SVGPath(**{k.replace('-', '_'): v}), **inh).attrib.get(k)
+            except Exception as ex: impl = 'raised ' + type(ex).__name__
+            mod = m.call('write_field', [wire_map(inh), defaults[k], k, v])
+            nt = (k in inh)
+            name, inp = 'write_field', [inh, k, v]
+        else:
+            own = None if rng.random() < 0.4 else rng.choice(WB[k] + ['', ' '])
+            try: impl = getattr(psvg.from_element(etree.Element(f'{{{SVGNS}}}path', attrib=({} if own is None else {k: own})), **inh), k.replace('-', '_'))
+            except Exception as ex: impl = 'raised ' + type(ex).__name__
+            mod = m.call('read_field', [wire_map(inh), defaults[k], k, own])
+            nt = (k in inh) and own is not None
+            name, inp = 'read_field', [inh, k, own]
+        stats['evaluations'] += 1
+        stats['distribution'][name] = stats['distribution'].get(name, 0) + 1
+        if nt: stats['nontrivial'].add(json.dumps(jsonable([name, inp]), sort_keys=True))
+        if impl != mod:
+            stats['disagreements'].append({'what': f'{name}: model and implementation differ', 'input': jsonable([name, inp]), 'impl': jsonable(impl), 'model': jsonable(mod)})
+            if len(stats['disagreements']) >= 10: break
     return stats
 
 # ---------------------------------------------------------------- documents for the rendering judge
@@ -121,10 +149,11 @@ def gen_doc(rng, with_use=True, root_opacity=False):
                 a[k] = other; style.append(f'{k}:{v}')
                 if rng.random() < 0.3: style.insert(0, f'{k}:{other}')
             else: a[k] = v
-        if rng.random() < 0.5: put('fill', rng.choice(['red', 'blue', 'green', 'none', 'yellow']))
+        if rng.random() < 0.5: put('fill', rng.choice(['red', 'blue', 'green', 'none', 'yellow', 'black']))   # black: the default, stated explicitly
         if rng.random() < 0.25: put('fill-opacity', rng.choice(OP[:5]))
         if rng.random() < 0.35: put('opacity', rng.choice(OP if level == 'group' else OP[:5]))
         if rng.random() < 0.08: put('display', 'none')
+        elif rng.random() < 0.1: put('display', 'inline')      # an explicit non-none value on an ancestor does not un-hide a hidden descendant
         if rng.random() < 0.15 and level != 'group': put('fill-rule', rng.choice(['evenodd', 'nonzero']))
         if style: a['style'] = ';'.join(style)
         return a
@@ -138,9 +167,16 @@ def gen_doc(rng, with_use=True, root_opacity=False):
         return f'<g{attrs_s(paint_attrs("group"))}>{kids}</g>'
     body = ''.join(group(1) if rng.random() < 0.6 else rect() for _ in range(rng.randint(2, 4)))
     defs = ''
-    if with_use and rng.random() < 0.3:
-        defs = '<defs><rect id="u" width="6" height="6"/></defs>'
-        body += f'<use xlink:href="#u" x="{rng.randint(0, 9)}" y="{rng.randint(0, 9)}"{attrs_s(paint_attrs("use"))}/>'
+    if with_use and rng.random() < 0.4:
+        # the referenced content states its own paint half of the time (own value wins over the referencing element's),
+        # is a shape or a group, and the <use> may sit inside a painted group and need no offset
+        tp = paint_attrs('shape') if rng.random() < 0.5 else {}
+        if rng.random() < 0.7: target = f'<rect id="u" width="6" height="6"{attrs_s(tp)}/>'
+        else: target = f'<g id="u"{attrs_s(paint_attrs("shape") if rng.random() < 0.4 else {})}><rect width="6" height="6"{attrs_s(tp)}/><rect x="3" y="3" width="5" height="5"/></g>'
+        defs = f'<defs>{target}</defs>'
+        xy = f' x="{rng.randint(0, 9)}" y="{rng.randint(0, 9)}"' if rng.random() < 0.7 else ''
+        use = f'<use xlink:href="#u"{xy}{attrs_s(paint_attrs("use"))}/>'
+        body += f'<g{attrs_s(paint_attrs("shape"))}>{use}</g>' if rng.random() < 0.3 else use
     root = attrs_s({k: v for k, v in paint_attrs('root').items() if k not in ('display', 'style') and (k != 'opacity' or root_opacity)}) if rng.random() < 0.3 else ''
     return f'<svg xmlns="http://www.w3.org/2000/svg" xmlns:xlink="http://www.w3.org/1999/xlink" viewBox="0 0 20 20"{root}>{defs}{body}</svg>'
 
